@@ -83,6 +83,7 @@ type tncSim struct {
 	connectKind byte
 	connects    int
 	stage       func() string // the application's stage (set by the harness)
+	sent        int
 }
 
 const (
@@ -95,7 +96,13 @@ func (t *tncSim) complain(format string, a ...any) {
 	t.complaints = append(t.complaints, fmt.Sprintf(format, a...))
 }
 
-func (t *tncSim) send(f agwFrame) { t.conn.Write(f.bytes()) }
+func (t *tncSim) send(f agwFrame) {
+	t.conn.Write(f.bytes())
+	t.sent++
+	if t.cfg.DieAfter > 0 && t.sent == t.cfg.DieAfter {
+		t.conn.Close() // the TNC is gone right behind this frame (link lost, process killed)
+	}
+}
 
 // handle validates one host frame and replies as an AGWPE TNC does.
 func (t *tncSim) handle(f agwFrame) {
@@ -238,6 +245,7 @@ type c13Scn struct {
 	YBadClose  bool   `json:"y_bad_in_close,omitempty"` // the malformed answers are given to the polls Close issues (its flush), not to the first poll
 	YBad       int    `json:"y_bad,omitempty"`          // the first outstanding-frames poll is answered with a data field of 0 (1), 3 (2), 8 (3), 5 (4) bytes instead of 4
 	CloseAfter int    `json:"close_after,omitempty"`    // inbound: the application stops reading after this many bytes and closes connection and port while the TNC is still sending
+	DieAfter   int    `json:"die_after,omitempty"`      // the TNC sends this many frames in answer to the host and is gone right behind the last one
 	CtxCancel  bool   `json:"ctx_cancel,omitempty"`     // the dial context is cancelled as soon as the dial has returned (ctx, cancel := ...; defer cancel() in a dial helper)
 	Mal        int    `json:"mal"`
 	MalWhen    int    `json:"mal_when,omitempty"` // malformed input arrives 0: once the registration was seen; 1: after OpenPortTCP returned, digested before the application dials; 2: on the established connection, while the application reads
@@ -248,7 +256,7 @@ func (s c13Scn) digis() []string { return []string{"LD5SK", "W1AW-1"}[:s.Digis] 
 
 func (s c13Scn) describe() string {
 	return fmt.Sprintf("%s port=%d frames=%v foreign=%d readbuf=%d late=%d onewrite=%v burst=%v seg=%s chunks=%v drop=%d hs=%s digis=%d mal=%d/%d ybad=%d%v redial=%d maxframe=%d",
-		s.Kind, s.Port, s.Frames, s.Foreign, s.ReadBuf, s.Late, s.OneWrite, s.Burst, c13SegName(s.Seg), s.Chunks, s.DropEvery, s.HS, s.Digis, s.Mal, s.MalWhen, s.YBad, s.YBadClose, s.Redial, s.MaxFrame) + map[bool]string{true: " dial context cancelled after the dial"}[s.CtxCancel] + map[bool]string{true: fmt.Sprintf(" close after %d bytes", s.CloseAfter)}[s.CloseAfter > 0]
+		s.Kind, s.Port, s.Frames, s.Foreign, s.ReadBuf, s.Late, s.OneWrite, s.Burst, c13SegName(s.Seg), s.Chunks, s.DropEvery, s.HS, s.Digis, s.Mal, s.MalWhen, s.YBad, s.YBadClose, s.Redial, s.MaxFrame) + map[bool]string{true: " dial context cancelled after the dial"}[s.CtxCancel] + map[bool]string{true: fmt.Sprintf(" close after %d bytes", s.CloseAfter)}[s.CloseAfter > 0] + map[bool]string{true: fmt.Sprintf(" tnc-gone-after-%d-frames", s.DieAfter)}[s.DieAfter > 0]
 }
 
 func c13SegName(i int) string {
@@ -463,6 +471,9 @@ func c13Harness(sc c13Scn, o *c13Obs) func() {
 			if err != nil {
 				return
 			}
+			if sc.DieAfter > 0 {
+				defer tp.Close() // the application cleans up whatever happened - possibly while the library notices the loss
+			}
 			var conn net.Conn
 			switch sc.HS {
 			case "inbound-connect":
@@ -674,6 +685,9 @@ func c13Judge(sc c13Scn, o *c13Obs, res *vs.Result) (out []c13Finding, poisoned 
 		add("application-call-never-returns|"+o.stage, "%s: %+v", res.Outcome, res.Blocked)
 		return
 	}
+	if sc.DieAfter > 0 {
+		return // a TNC that goes away: every call returns (with an error), nothing crashes
+	}
 	switch sc.Kind {
 	case "inbound":
 		if o.openErr != nil || o.dialErr != nil {
@@ -861,6 +875,9 @@ func c13Scenarios(thorough bool) []c13Scn {
 	for _, ow := range []bool{false, true} { // the application hangs up and shuts the port down while the TNC is still sending
 		out = append(out, c13Scn{Kind: "inbound", Frames: []int{5, 6, 7, 8}, DropEvery: 1, Burst: true, OneWrite: ow, CloseAfter: 5})
 	}
+	for k := 1; k <= 8; k++ { // the TNC is lost while the application registers, dials, writes, flushes, closes
+		out = append(out, c13Scn{Kind: "outbound", Chunks: []int{300, 1}, DropEvery: 1, DieAfter: k}, c13Scn{Kind: "inbound", Frames: []int{5}, DropEvery: 1, DieAfter: k})
+	}
 	for _, dg := range []int{0, 1} { // the dial context ends once the dial has returned
 		out = append(out, c13Scn{Kind: "outbound", Chunks: []int{300, 1}, DropEvery: 1, CtxCancel: true, Digis: dg}, c13Scn{Kind: "inbound", Frames: []int{5, 6}, DropEvery: 1, CtxCancel: true, Digis: dg})
 	}
@@ -912,6 +929,17 @@ func C13(args []string) {
 	if r.Thorough() {
 		maxBound = 2
 	}
+	devBound := 0
+	if v := os.Getenv("VERIF_ONLY"); v != "" { // development aid: only the scenarios whose description contains the text, to VERIF_BOUND
+		var only []c13Scn
+		for _, sc := range scns {
+			if strings.Contains(sc.describe(), v) {
+				only = append(only, sc)
+			}
+		}
+		scns = only
+		fmt.Sscan(os.Getenv("VERIF_BOUND"), &devBound)
+	}
 	r.Sharded(len(scns), func(i int) {
 		sc := scns[i]
 		// timers fire only when every thread is blocked: timeouts that expire early under a
@@ -930,6 +958,9 @@ func C13(args []string) {
 			if deepBound > 0 {
 				maxBound, e.MaxExec = deepBound, 3000000
 			}
+		}
+		if devBound > 0 {
+			maxBound, e.MaxExec = devBound, 3000000
 		}
 		if sc.Kind == "malformed" && (sc.Mal == 3 || sc.Mal == 7) {
 			maxBound, e.MaxExec = 0, 20 // the library allocates the announced DataLen (up to 4 GiB) per execution
